@@ -324,7 +324,8 @@ func classifyMapRange(w *World, p *packages.Package, fd *ast.FuncDecl, rs *ast.R
 						if o == nil {
 							o = info.Defs[id]
 						}
-						if id.Name == "_" || declaredInside(o) {
+						if id.Name == "_" || declaredInside(o) || (o != nil && (o == kobj || o == vobj)) {
+							// the range variables are per-iteration copies
 							continue
 						}
 						confined, why = false, "assigns the outer variable "+id.Name
